@@ -50,3 +50,20 @@ void *__wrap_calloc(size_t a, size_t b) { return should_fail() ? NULL : __real_c
 void *__wrap_realloc(void *p, size_t n) { return should_fail() ? NULL : __real_realloc(p, n); }
 char *__wrap_strdup(const char *s) { return should_fail() ? NULL : __real_strdup(s); }
 char *__wrap_strndup(const char *s, size_t n) { return should_fail() ? NULL : __real_strndup(s, n); }
+
+/* harness control: fail the k-th allocation counted from now; returns the number of allocations seen (negative if the fault was delivered) */
+void verif_alloc_arm(long k)
+{
+	if (fail_k == -2)
+		atexit(report);
+	counter = 0;
+	delivered = 0;
+	fail_k = k;
+}
+
+long verif_alloc_disarm(void)
+{
+	long c = counter;
+	fail_k = -1;
+	return delivered ? -c : c;
+}
